@@ -125,6 +125,7 @@ func (e *Enc) encCall(v ssa.Value, c *ssa.CallCommon, st *State, guard string, d
 	e.callCount[ci.key] = n + 1
 	if fc == nil {
 		// unknown callee: havoc heap (unless result-only builtin-like), unconstrained result
+		e.havocStableWrittenBy(ci, st, guard)
 		e.havocHeapGuarded(st, guard, "call to "+ci.key+" (no contract)")
 		e.growAlloc(st)
 		if ci.dynamic || (ci.fn != nil && inRepo(ci.fn) && e.w.mayHaveGhostEffects(ci.fn, map[*ssa.Function]bool{})) {
@@ -185,6 +186,28 @@ func (e *Enc) havocHeapGuarded(st *State, guard, why string) {
 			}
 			st.m[k] = n
 		}
+	}
+}
+
+// havocStableWrittenBy: a `stable` field survives calls - except calls to (or statically reaching) one
+// of its declared writers, after which nothing is known about it but what the callee's contract says.
+func (e *Enc) havocStableWrittenBy(ci *calleeInfo, st *State, guard string) {
+	if ci.fn == nil {
+		return
+	}
+	for _, k := range e.keyOrder {
+		if !strings.HasPrefix(k, "F:") || !e.isStableKey(k) || !e.w.mayWriteStable(ci.fn, k) {
+			continue
+		}
+		e.recordWrite(k, nil)
+		old := e.get(st, k, e.keySort[k])
+		n := e.fresh(k)
+		e.declare(n, e.keySort[k])
+		e.keyInvariant(k, n)
+		if guard != "true" {
+			e.assume(fmt.Sprintf("(=> (not %s) (= %s %s))", guard, n, old))
+		}
+		st.m[k] = n
 	}
 }
 
@@ -275,6 +298,7 @@ func (e *Enc) applyContract(v ssa.Value, ci *calleeInfo, fc *FuncContract, st *S
 	}
 	oldSt := st.clone()
 	// 2. frame
+	e.havocStableWrittenBy(ci, st, guard)
 	e.applyModifies(fc, pre, st, guard, ci.key)
 	e.growAlloc(st)
 	// 3. results
